@@ -252,6 +252,7 @@ func init() {
 			{"lock-pairing", "in pkg/core/mempool every mutex acquired is released on every exit of every function (defer-aware, boolean-correlated), never released unheld, never re-acquired while held", func(c *Ctx) { lockPairingPkgs(c, []string{"pkg/core/mempool"}, nil, 10) }},
 			{"add-failure-atomic", "no write to verifiedMap/verifiedTxes/fees/conflicts/oracleResp (direct or through a Pool method) lies on a CFG path to a non-nil error return of Pool.Add or checkTxConflicts (tabled: removal before the infeasible capacity exit; balance-cache fill)", ruleAddFailureAtomic},
 			{"index-comaintenance", "every removal/insertion path of the pool updates all five indexes, and fee credits in conflict resolution are gated by payer equality", ruleIndexComaintenance},
+			{"single-comparator", "the priority fields of two transactions (network fee, fee per byte) are compared only inside item.Compare (one tabled exception: the oracle-response replacement rule): no second, partial order decides a placement or an eviction", ruleSingleComparator},
 			{"index-fresh", "a position computed on verifiedTxes (sort.Search/len/range index) is never used after a call that may restructure the slice", ruleIndexFresh},
 			{"tautology", "no comparison of a side-effect-free expression with itself anywhere in the module (==, Equals, Cmp, bytes.Equal, ...)", ruleTautology},
 		},
